@@ -69,4 +69,7 @@ INSTANCES = [
     'vf.dcls.APlain(1)', "vf.dcls.APlain(1, 'y', [0])", 'vf.dcls.AFrozen()', 'vf.dcls.AFrozen(2, b=vf.dcls.AFrozen(3))',
     'vf.dcls.ASelf()', 'vf.dcls.ASelf(5)', 'vf.dcls.ASelf(5, 7)', 'vf.dcls.ASelf(1, 2)',
     "vf.dcls.Plain(vf.dcls.APlain(vf.dcls.Frozen(1)), 'x')",
+    # values that are falsy / empty but differ from the default (factory)
+    "vf.dcls.Plain(1, 'x', None)", "vf.dcls.Plain(1, '', ())", "vf.dcls.Plain(0, 'x', 0)",
+    'vf.dcls.Slotted(1, [])', "vf.dcls.APlain(1, 'x', None)", "vf.dcls.APlain(None, '', ())", 'vf.dcls.Frozen(0, 5, 0)',
 ]
